@@ -83,6 +83,13 @@ def loss(sc):
     res = {'kind': 'loss', 'victim_found': victim is not None}
     if victim is None:
         return res
+    if sc.get('closing'):
+        # the worker dies while the pool is being closed and joined: the loss is still reported
+        for x in others:
+            _outcome(x, 10)
+        pool.close()
+        threading.Thread(target=pool.join, daemon=True).start()
+        time.sleep(0.2)
     t_kill = time.monotonic()            # a lower bound for the moment of death
     if how[0] == 'signal':
         os.kill(victim, how[1])
@@ -112,6 +119,10 @@ def loss(sc):
                names_status=(o[0] == 'exc' and human_status(want) in o[2]),
                delay10=int((t_res - t_kill) * 10), grace10=int((10.0 if kind == 'map' else grace) * 10),
                others_ok=all(_outcome(x, 10)[0] == 'ok' for x in others))
+    if sc.get('closing'):
+        res['pool_size'] = sc['procs']       # a closed pool is not refilled, nor usable: not judged
+        res['usable_after'] = True
+        return res
     time.sleep(1.0)
     res['pool_size'] = len([w for w in pool._pool if w._is_alive()])
     after = pool.apply_async(targets.pid_task, (7,))
